@@ -417,10 +417,11 @@ Print Assumptions C14_put_stages_commute.
 (* C14_put_output_normal.  FULL STATEMENT (false, see the two counterexamples below):
      forall s s', put_model s = Some s' -> exists z, s' = print_node [] z /\ normal_form z.
    PROVED with the side condition C14Compose.put_side_ok, a computable predicate of the uploaded text: the two
-   conditions above, and -- CHECKED, not derived, on the tree that is printed -- one top-level component, every line
-   well-formed WITH ITS PARAMETERS IN SORTED ORDER (so for an upload with unsorted parameters the theorem speaks about
-   the second store of the stored text, whose parameters vobject has sorted), no vCard PHOTO line, no control
-   character / data: prefix left in the text, no quoted-printable, outside the known class C14:fold-ws.
+   conditions above, and -- CHECKED, not derived, on the tree that is printed -- parameter names distinct within a line
+   and, with the parameters sorted as print_cl writes them (z below is that tree: the one the next read builds; the three
+   stages are proved blind to the order of distinctly named parameters, Proofs/C14Compose.v section 6b): one top-level
+   component, every line well-formed (non-empty parameter values: known class C14:empty-param), no vCard PHOTO line,
+   no control character / data: prefix left in the text, no quoted-printable, outside the known class C14:fold-ws.
    checks/C14.py evaluates the predicate by vm_compute on every stored text of the put_model stream (suite
    `stored_normal`) and requires it to hold outside the three documented classes. *)
 Theorem C14_put_output_normal : forall s s',
@@ -442,8 +443,8 @@ Theorem C14_put_then_reload : forall s s',
 Proof. exact C14Compose.put_then_reload. Qed.
 Print Assumptions C14_put_then_reload.
 
-(* not vacuous: an upload on which every stage acts (reordering, zero DURATION dropped, EXDATE converted, TEXT escaped)
-   meets the side condition, is changed by the pipeline, and its stored text is a fixed point *)
+(* not vacuous: an upload on which every stage acts (reordering, zero DURATION dropped, EXDATE converted with VALUE=DATE
+   appended after X-A, TEXT escaped, parameters sent unsorted) meets the side condition, is changed by the pipeline, and its stored text is a fixed point *)
 Theorem C14_put_idempotent_nonvacuous :
   C14Compose.put_side_ok C14Compose.ComposeExamples.busy = true /\
   exists s', put_model C14Compose.ComposeExamples.busy = Some s' /\ eqs s' C14Compose.ComposeExamples.busy = false /\
